@@ -79,7 +79,7 @@ PROPS = {
             "Astral.C03.sunBundle_on_date", "Astral.C03.moonWrapper_on_date",
             "Astral.C03.moonrise_on_date", "Astral.C03.moonset_on_date",
         ],
-        "groups": [G("corr_sun", "sun_events", 2500, 60000), G("corr_sun", "sun_periods", 1500, 40000),
+        "groups": [G("corr_norm", "norm", 1500, 30000), G("corr_sun", "sun_events", 2500, 60000), G("corr_sun", "sun_periods", 1500, 40000),
                    G("corr_moon", "moon_riseset", 1200, 30000)],
         "unproved": [],
         "assumes": ["astimezone near year 1/9999 (OverflowError) is outside the modelled range"],
@@ -374,7 +374,7 @@ PROPS = {
             "Astral.C13.quad_root_in_unit", "Astral.C13.interpolant_samples",
             "Astral.C13.event_time_fields", "Astral.C13.threshold_def",
         ],
-        "groups": [G("corr_moon", "moon_riseset", 3000, 60000), G("corr_moon", "moon_position", 1500, 30000)],
+        "groups": [G("corr_norm", "norm", 1200, 30000), G("corr_moon", "moon_riseset", 3000, 60000), G("corr_moon", "moon_position", 1500, 30000)],
         "unproved": ["0.45° agreement of the crossing altitude", "hourly interpolation error"],
         "assumes": ["a ≠ 0 in the quadratic"],
     },
@@ -392,7 +392,7 @@ PROPS = {
             "Astral.C13.moonWrapper_outcomes", "Astral.C13.moonWrapper_complete", "Astral.C13.moon_choice",
             "Astral.C03.moonWrapper_on_date",
         ],
-        "groups": [G("corr_moon", "moon_riseset", 4000, 80000)],
+        "groups": [G("corr_norm", "norm", 1200, 30000), G("corr_moon", "moon_riseset", 4000, 80000)],
         "unproved": ["every real crossing produces an hourly sign change (scan completeness, 8 minutes)"],
         "assumes": ["the scan does not raise"],
     },
